@@ -17,6 +17,7 @@ Import ListNotations.
 Local Open Scope Z_scope.
 
 Definition mt := (Z * Z)%type.            (* start, length *)
+Definition nonempty {A} (l : list A) : bool := match l with [] => false | _ => true end.
 
 (* rule conditions, as far as patterns are concerned *)
 Inductive fcond :=
@@ -59,31 +60,46 @@ Definition analysis_covers (ofd : bool) (rules : list fcond) : Prop :=
   forall c p, In c rules -> observes c p = true -> elig ofd rules p = false.
 
 (* ------------------------------------------------------------ tracking *)
-(* track_match calls of a normal scan, in the order the scanner makes them *)
-Definition event := (nat * mt)%type.
+(* what a normal scan does, in the order the scanner does it: one event per
+   verified hit (an atom hit passed to handle_atom_match, or an anchored
+   pattern checked by verify_anchored_patterns) with the matches that the
+   verification tracks for it - none, one, or several (a regexp whose backward
+   code finds several starts) *)
+Definition event := (nat * list mt)%type.
 
 Fixpoint memb (p : nat) (l : list nat) : bool :=
   match l with [] => false | q :: t => Nat.eqb p q || memb p t end.
 
-(* the scan loop: events for disabled patterns are skipped; in fast mode an
-   eligible pattern is disabled when its first match is tracked *)
+(* the scan loop: hits of disabled patterns are skipped as a whole
+   (handle_atom_match returns early); in fast mode track_match disables an
+   eligible pattern as soon as a match of it is tracked, which takes effect
+   from the next hit on *)
 Fixpoint run (fast : bool) (el : nat -> bool) (evs : list event) (disabled : list nat) : list event :=
   match evs with
   | [] => []
-  | (p, m) :: t =>
+  | (p, ms) :: t =>
       if memb p disabled then run fast el t disabled
-      else (p, m) :: run fast el t (if fast && el p then p :: disabled else disabled)
+      else (p, ms) :: run fast el t (if fast && el p && nonempty ms then p :: disabled else disabled)
   end.
 
-Definition of_pat (p : nat) (evs : list event) : list mt :=
-  map snd (filter (fun e => Nat.eqb (fst e) p) evs).
+(* matches tracked for p, in tracking order *)
+Fixpoint of_pat (p : nat) (evs : list event) : list mt :=
+  match evs with
+  | [] => []
+  | (q, ms) :: t => if Nat.eqb q p then ms ++ of_pat p t else of_pat p t
+  end.
+
+(* the matches of the first hit of p that tracks something *)
+Fixpoint first_hit (p : nat) (evs : list event) : list mt :=
+  match evs with
+  | [] => []
+  | (q, ms) :: t => if Nat.eqb q p && nonempty ms then ms else first_hit p t
+  end.
 
 Definition tracked (fast : bool) (el : nat -> bool) (evs : list event) : nat -> list mt :=
   fun p => of_pat p (run fast el evs []).
 
 (* ------------------------------------------------------------ verdicts *)
-Definition nonempty {A} (l : list A) : bool := match l with [] => false | _ => true end.
-
 Fixpoint feval (m : nat -> list mt) (prev : list bool) (c : fcond) : bool :=
   match c with
   | FConst b => b
